@@ -413,7 +413,8 @@ Qed.
 (* what the table does to (state, timer, tuple) when it continues; [hasack] = the segment has ACK *)
 Definition trans_rel (cx : ctx) (s s' : socket) (c : control) (hasack aof : bool) : Prop :=
   let st := s_state s in let st' := s_state s' in
-  (st = Listen /\ c = CSyn /\ st' = SynReceived /\ s_local_seq_no s' = cx_isn cx /\ s_tuple s' <> None) \/
+  (st = Listen /\ c = CSyn /\ st' = SynReceived /\ s_local_seq_no s' = cx_isn cx /\ s_tuple s' <> None /\
+   (exists k, s_timer s' = TIdle k)) \/
   (s_local_seq_no s' = s_local_seq_no s /\
    ((s_tuple s' = s_tuple s /\
      ((st' = st /\ s_timer s' = s_timer s /\ st <> Listen /\ st <> SynSent /\ st <> SynReceived /\
@@ -469,7 +470,7 @@ Proof.
     inv H.
     destruct (apply_mss_frame s r) as [(H1 & H2 & H3 & H3' & H4 & H5 & H6 & H7) (H8 & H9 & H10)].
     destruct (r_window_scale r); destruct (r_timestamp r); simpl;
-      (split; [left; repeat split; auto; discriminate | auto]).
+      (split; [left; isplit; auto; try discriminate; eexists; reflexivity | auto]).
   - (* SynSent, Syn *)
     destruct (apply_mss_frame s r) as [(H1 & H2 & H3 & H3' & H4 & H5 & H6 & H7) (H8 & H9 & H10)].
     destruct (r_ack_number r) eqn:Ea; simpl in H; inv H;
@@ -586,19 +587,23 @@ Qed.
 
 Lemma timers_spec : forall cx s al aall s' tg,
   tcp_process_timers cx s al aall = (s', tg) ->
-  only_timer s' s /\ (forall e, s_timer s = TClose e -> s_timer s' = TClose e).
+  only_timer s' s /\ (forall e, s_timer s = TClose e -> s_timer s' = TClose e) /\
+  (forall e, s_timer s' = TClose e -> s_timer s = TClose e).
 Proof.
   intros cx s al aall s' tg H. unfold tcp_process_timers in H.
-  destruct (s_timer s) eqn:Et; try (inv H; split; [apply only_timer_refl | intros e He; congruence]);
-    try (destruct aall; [|destruct (al >? 0)]; inv H;
-         (split; [try apply only_timer_upd; apply only_timer_refl | intros e He; congruence]));
-    try (split; [apply only_timer_upd | intros e He; congruence]).
+  destruct (s_timer s) eqn:Et;
+    try (destruct aall; [|destruct (al >? 0)]); inv H;
+    (isplit; [try apply only_timer_upd; apply only_timer_refl
+             | intros e He; try discriminate He; simpl; rewrite ?Et; simpl; congruence
+             | intros e He; unfold timer_set_for_idle in He; simpl in He; rewrite ?Et in He; simpl in He;
+               try discriminate He; congruence]).
 Qed.
 
 Lemma zwp_spec : forall cx s al s' tg,
   tcp_process_zwp cx s al = (s', tg) ->
   only_timer s' s /\
-  (forall e, s_timer s = TClose e -> rb_len (s_tx_buffer s) = 0 -> s_timer s' = TClose e).
+  (forall e, s_timer s = TClose e -> rb_len (s_tx_buffer s) = 0 -> s_timer s' = TClose e) /\
+  (forall e, s_timer s' = TClose e -> s_timer s = TClose e).
 Proof.
   intros cx s al s' tg H. unfold tcp_process_zwp in H.
   match type of H with (let '(_, _) := (if ?c then _ else _) in _) = _ => destruct c eqn:Ec end.
@@ -609,18 +614,21 @@ Proof.
     simpl in H.
     match type of H with (if ?c then _ else _) = _ => destruct c end.
     + match type of H with (if ?c then _ else _) = _ => destruct c end; inv H;
-        (split; [unfold only_timer, same_conn; simpl; auto 12 |]);
-        intros e _ Hl; unfold rb_is_empty in Hne; rewrite Hl in Hne; discriminate Hne.
-    + inv H. split; [apply only_timer_upd|].
-      intros e _ Hl; unfold rb_is_empty in Hne; rewrite Hl in Hne; discriminate Hne.
+        (isplit; [unfold only_timer, same_conn; simpl; auto 12
+                 | intros e _ Hl; unfold rb_is_empty in Hne; rewrite Hl in Hne; discriminate Hne
+                 | intros e He; simpl in He; discriminate He]).
+    + inv H. isplit; [apply only_timer_upd
+                     | intros e _ Hl; unfold rb_is_empty in Hne; rewrite Hl in Hne; discriminate Hne
+                     | intros e He; simpl in He; discriminate He].
   - match type of H with (if ?c then _ else _) = _ => destruct c eqn:Ec2 end.
     + assert (Hz : timer_is_zero_window_probe (s_timer s) = true).
       { destruct (timer_is_zero_window_probe (s_timer s)); [reflexivity|].
         rewrite andb_false_r in Ec2. discriminate Ec2. }
       match type of H with (if ?c then _ else _) = _ => destruct c end; inv H;
-        (split; [unfold only_timer, same_conn; simpl; auto 12 |]);
-        intros e He; rewrite He in Hz; discriminate Hz.
-    + inv H. split; [apply only_timer_refl | auto].
+        (isplit; [unfold only_timer, same_conn; simpl; auto 12
+                 | intros e He; rewrite He in Hz; discriminate Hz
+                 | intros e He; simpl in He; discriminate He]).
+    + inv H. isplit; [apply only_timer_refl | auto | auto].
 Qed.
 
 Lemma payload_spec : forall cx s ip r payload off s' rep tg,
@@ -686,7 +694,9 @@ Definition inv (s : socket) (g : ghost) : Prop :=
   J s g /\ seq_wf (s_local_seq_no s) /\ seq_wf (g_iss g) /\
   0 <= tx_len s <= rb_cap (s_tx_buffer s) /\
   (s_state s = TimeWait -> exists e, s_timer s = TClose e) /\
-  (s_state s <> Closed -> s_state s <> Listen -> s_tuple s <> None).
+  (s_state s <> Closed -> s_state s <> Listen -> s_tuple s <> None) /\
+  (s_syn_unacked_in_fin_wait s = true -> s_state s = FinWait1 \/ s_state s = Closed) /\
+  (forall e, s_timer s = TClose e -> s_state s = TimeWait \/ s_state s = Closed).
 
 Lemma seq_add_cancel : forall l k al t, seq_add (seq_add l (k + al)) (t - al) = seq_add l (k + t).
 Proof. intros. rewrite seq_add_add. f_equal. lia. Qed.
@@ -703,7 +713,8 @@ Definition tail_ok (r : tcp_repr) (al : Z) (s3 s8 : socket) : Prop :=
   tx_len s8 = tx_len s3 - (if al >? 0 then al else 0) /\
   rb_cap (s_tx_buffer s8) = rb_cap (s_tx_buffer s3) /\
   (al >? 0 = true -> al <= tx_len s3) /\
-  (forall e, s_timer s3 = TClose e -> tx_len s8 = 0 -> s_timer s8 = TClose e).
+  (forall e, s_timer s3 = TClose e -> tx_len s8 = 0 -> s_timer s8 = TClose e) /\
+  (forall e, s_timer s8 = TClose e -> s_timer s3 = TClose e).
 
 Definition ghost_seg (cx : ctx) (s s' : socket) (g : ghost) : ghost :=
   if tcp_state_eqb (s_state s) Listen && tcp_state_eqb (s_state s') SynReceived
@@ -729,10 +740,12 @@ Qed.
 (* a segment that leaves everything but (possibly) the TIME-WAIT timer alone *)
 Lemma inv_same_conn : forall s s' g,
   inv s g -> same_conn s' s ->
-  (s_state s = TimeWait -> exists e, s_timer s' = TClose e) -> inv s' g.
+  (s_timer s' = s_timer s \/ (s_state s = TimeWait /\ exists e, s_timer s' = TClose e)) -> inv s' g.
 Proof.
-  intros s s' g (HJ & Hw & Hg & Htx & Htw & Htu) (H1 & H2 & H3 & H4 & H5 & H6 & H7 & H8) Ht.
-  unfold inv, J, tx_len in *. rewrite H1, H2, H3, H4, H5. isplit; auto; tauto.
+  intros s s' g (HJ & Hw & Hg & Htx & Htw & Htu & Hfl & Htc) (H1 & H2 & H3 & H4 & H5 & H6 & H7 & H8) Ht.
+  unfold inv, J, tx_len in *. rewrite H1, H2, H3, H4, H5. isplit; auto; try lia.
+  - intros E. destruct Ht as [Ht|[_ Ht]]; [rewrite Ht; auto | exact Ht].
+  - intros e He. destruct Ht as [Ht|[Ht _]]; [rewrite Ht in He; eauto | auto].
 Qed.
 
 Lemma seg_post_unchanged : forall cx s g r s',
@@ -741,9 +754,8 @@ Proof.
   intros cx s g r s' Hinv Hc Ht. pose proof Hc as (H1 & _).
   unfold seg_post. rewrite ghost_seg_same by (intros E; rewrite H1, E; discriminate).
   split; [left; exact H1|]. split.
-  - apply inv_same_conn with s; auto. intros E.
-    destruct Hinv as (_ & _ & _ & _ & Htw & _). destruct (Htw E) as [e He].
-    destruct Ht as [Ht|[_ Ht]]; rewrite Ht; eauto.
+  - apply inv_same_conn with s; auto.
+    destruct Ht as [Ht|[Ht1 Ht]]; [left; exact Ht | right; split; [exact Ht1 | eauto]].
   - split; intros E1 E2; [rewrite H1 in E1; contradiction|].
     destruct Ht as [Ht|[_ Ht]]; auto.
 Qed.
@@ -760,16 +772,18 @@ Lemma seg_post_rst : forall cx s g r s',
   seg_post cx s g r s'.
 Proof.
   intros cx s g r s' Hinv Hwf Hpre Hc Hacc Hnl Ht Hl (Hb & Hle & Hto & Hfl) Htu Hst.
-  destruct Hinv as (HJ & Hw & Hg & Htx & Htw & Htup).
+  destruct Hinv as (HJ & Hw & Hg & Htx & Htw & Htup & Hflg & Htc).
   unfold seg_post.
   assert (Hg' : ghost_seg cx s s' g = g).
   { apply ghost_seg_same. intros E. contradiction. }
   rewrite Hg'.
   assert (Hinv' : inv s' g).
-  { unfold inv, J, tx_len in *. rewrite Hl, Hb.
+  { unfold inv, J, tx_len in *. rewrite Hl, Hb, Hfl, Ht.
     destruct Hst as [(E1 & E2 & E3)|E3]; rewrite E3; isplit; auto; try discriminate; try lia;
       try congruence.
-    rewrite E1 in HJ. tauto. }
+    - rewrite E1 in HJ. tauto.
+    - intros Hx. destruct (Hflg Hx); congruence.
+    - intros e He. destruct (Htc e He); congruence. }
   split; [|split; [exact Hinv'|split; intros E1 E2]].
   - destruct (tcp_state_eqb (s_state s') (s_state s)) eqn:Ee.
     + left. destruct (s_state s'), (s_state s); simpl in Ee; congruence.
@@ -851,6 +865,38 @@ Qed.
 Lemma pos_or_zero : forall al, 0 <= al -> (if al >? 0 then al else 0) = al.
 Proof. intros. destruct (Z.gtb_spec al 0); lia. Qed.
 
+Ltac flag_goal :=
+  let Hx := fresh "Hx" in
+  intros Hx;
+  repeat match goal with
+         | T : s_syn_unacked_in_fin_wait ?x = ?v |- _ =>
+             lazymatch v with true => fail | _ => rewrite T in Hx end
+         end;
+  first [ discriminate Hx
+        | match goal with
+          | Hf : s_syn_unacked_in_fin_wait ?y = true -> _ |- _ => destruct (Hf Hx); congruence
+          end ].
+
+Ltac tclose_goal :=
+  let e := fresh "e" in let He := fresh "He" in
+  intros e He;
+  first
+    [ left; reflexivity
+    | right; reflexivity
+    | match goal with
+      | T : forall e0, s_timer _ = TClose e0 -> s_timer _ = TClose e0 |- _ => apply T in He
+      end;
+      repeat match goal with
+             | D : s_timer ?a = ?b |- _ =>
+                 lazymatch b with TClose _ => fail | _ => rewrite D in He end
+             end;
+      first
+        [ discriminate He
+        | match goal with
+          | Hc : forall e0, s_timer _ = TClose e0 -> _ \/ _ |- _ =>
+              first [ exact (Hc _ He) | destruct (Hc _ He); congruence ]
+          end ] ].
+
 Lemma seg_post_cont : forall cx s g r c al aof s3 s8,
   inv s g -> wf_ctx cx -> wf_repr r -> ack_pre s r ->
   (s_state s <> Listen -> s_state s <> SynSent ->
@@ -861,16 +907,16 @@ Lemma seg_post_cont : forall cx s g r c al aof s3 s8,
   seg_post cx s g r s8.
 Proof.
   intros cx s g r c al aof s3 s8 Hinv Hcx Hwf Hpre Hacc [Hal0 Hal] Hq Htr (Sb & Sle & Sto & Sfl) Hnr
-         (T1 & T2 & T3 & T4 & T5 & T6 & T7 & T8).
-  pose proof Hinv as (HJ & Hw & Hg & Htx & Htw & Htup).
+         (T1 & T2 & T3 & T4 & T5 & T6 & T7 & T8 & T9).
+  pose proof Hinv as (HJ & Hw & Hg & Htx & Htw & Htup & Hflg & Htc).
   destruct Hwf as (Hws & Hwa & Hlen).
   assert (Hrc : r_control r <> CRst).
   { intro E. destruct c; simpl in Hq; try congruence; intuition congruence. }
   specialize (Hal Hrc).
   unfold tx_len in *. rewrite Sb in *.
-  destruct Htr as [(E1 & E2 & E3 & E4 & E5) | (E4 & [(E5 & Hcases) | Hlast])].
+  destruct Htr as [(E1 & E2 & E3 & E4 & E5 & E6) | (E4 & [(E5 & Hcases) | Hlast])].
   - (* LISTEN, SYN *)
-    subst c. simpl in Hq.
+    destruct E6 as [k E6]. subst c. simpl in Hq.
     assert (Han : r_ack_number r = None).
     { unfold ack_pre in Hpre. rewrite Hq, E1 in Hpre. exact Hpre. }
     destruct (Hal0 (or_intror Han)) as [-> ->]. rewrite Han in T3, T4.
@@ -879,7 +925,7 @@ Proof.
     split; [|split; intros; discriminate].
     unfold inv, J, tx_len. rewrite T1, E3, T3, E4, T5, T6, T2. simpl.
     unfold J in HJ. rewrite E1 in HJ. unfold tx_len in HJ.
-    isplit; auto; try lia; try discriminate.
+    isplit; auto; try flag_goal; try tclose_goal; try lia; try discriminate.
 
   - (* table arms that keep the tuple *)
     destruct Hcases as [Hc|Hc].
@@ -927,6 +973,8 @@ Proof.
         -- unfold tx_len. rewrite T5, T6. destruct (Z.gtb_spec al 0); [specialize (T7 eq_refl)|]; lia.
         -- rewrite T1, C1. intros E. destruct (Htw E) as [e He]. exists e. apply Htimer; auto.
         -- rewrite T1, C1, T2, E5. assumption.
+        -- rewrite T4. intros Hx; discriminate Hx.
+        -- rewrite T1, C1. intros e He. apply T9 in He. rewrite C2 in He. exact (Htc e He).
       * split; intros E E'; [congruence|]. left.
         destruct (Htw E') as [e He]. rewrite He. apply Htimer; auto.
     + (* state-changing arms *)
@@ -951,10 +999,10 @@ Proof.
         pose proof (Hzero J2 Hnn) as Hal0'. subst al.
         rewrite Ha in T3, T4. simpl in T5. replace (rb_len (s_tx_buffer s) - 0) with 0 in T5 by lia.
         subst c. simpl in Hq.
-        split; [right; do 4 right; left; unfold acks_iss; rewrite <- J1; isplit; auto; intuition congruence|].
+        split; [right; do 4 right; left; unfold acks_iss; rewrite <- J1; isplit; auto; try flag_goal; try tclose_goal; intuition congruence|].
         split; [|split; intros E; discriminate E].
         unfold inv, J, tx_len. rewrite T1, D3, T3, T5, T6, T2, E5.
-        isplit; auto; try lia; try discriminate; try apply seq_add_wf;
+        isplit; auto; try flag_goal; try tclose_goal; try lia; try discriminate; try apply seq_add_wf;
           try (intros _ _; apply Htup; congruence).
         rewrite seq_add_add, own_fin_seq_0, J1 by assumption. reflexivity.
       * (* SYN-RECEIVED -> CLOSE-WAIT *)
@@ -967,10 +1015,10 @@ Proof.
         rewrite Ha in T3, T4. simpl in T5. replace (rb_len (s_tx_buffer s) - 0) with 0 in T5 by lia.
         subst c. simpl in Hq. destruct Hq as (Q1 & Q2 & Q3).
         split; [right; do 5 right; left; unfold acks_iss, fin_in_order, rcv_nxt, rcv_wnd_end; rewrite <- J1;
-                isplit; auto; apply Hacc; congruence|].
+                isplit; auto; try flag_goal; try tclose_goal; apply Hacc; congruence|].
         split; [|split; intros E; discriminate E].
         unfold inv, J, tx_len. rewrite T1, D3, T3, T5, T6, T2, E5.
-        isplit; auto; try lia; try discriminate; try apply seq_add_wf;
+        isplit; auto; try flag_goal; try tclose_goal; try lia; try discriminate; try apply seq_add_wf;
           try (intros _ _; apply Htup; congruence).
         rewrite seq_add_add, own_fin_seq_0, J1 by assumption. reflexivity.
       * (* SYN-SENT -> ESTABLISHED *)
@@ -985,7 +1033,7 @@ Proof.
         split; [right; right; left; unfold acks_iss; rewrite <- J1; isplit; auto|].
         split; [|split; intros E; discriminate E].
         unfold inv, J, tx_len. rewrite T1, D3, T3, T5, T6, T2, E5.
-        isplit; auto; try lia; try discriminate; try apply seq_add_wf;
+        isplit; auto; try flag_goal; try tclose_goal; try lia; try discriminate; try apply seq_add_wf;
           try (intros _ _; apply Htup; congruence).
         rewrite seq_add_add, own_fin_seq_0, J1 by assumption. reflexivity.
       * (* SYN-SENT -> SYN-RECEIVED (simultaneous open) *)
@@ -995,7 +1043,7 @@ Proof.
         split; [right; right; right; left; isplit; auto|].
         split; [|split; intros E; discriminate E].
         unfold inv, J, tx_len. rewrite T1, D3, T3, E4, T5, T6, T2, E5.
-        isplit; auto; try lia; try discriminate; try (intros _ _; apply Htup; congruence).
+        isplit; auto; try flag_goal; try tclose_goal; try lia; try discriminate; try (intros _ _; apply Htup; congruence).
       * (* ESTABLISHED -> CLOSE-WAIT *)
         destruct (ack_pre_generic s r Hpre Hrc) as (a & Ha & Hlo & Hhi); try (rewrite D1; discriminate).
         destruct (Hal a Ha) as (Haeq & Haof & Hnn).
@@ -1003,10 +1051,10 @@ Proof.
         assert (Hf : aof = false) by (destruct aof; [destruct (Haof eq_refl) as [Hsf _]; discriminate Hsf|reflexivity]).
         subst aof. specialize (Hnn eq_refl). rewrite (pos_or_zero al Hnn) in T5. simpl in Haeq.
         rewrite Ha in T3, T4. subst c. simpl in Hq. destruct Hq as (Q1 & Q2 & Q3).
-        split; [right; do 7 right; left; unfold fin_in_order, rcv_nxt, rcv_wnd_end; isplit; auto; apply Hacc; congruence|].
+        split; [right; do 7 right; left; unfold fin_in_order, rcv_nxt, rcv_wnd_end; isplit; auto; try flag_goal; try tclose_goal; apply Hacc; congruence|].
         split; [|split; intros E; discriminate E].
         unfold inv, J, tx_len. rewrite T1, D3, T3, T5, T6, T2, E5.
-        isplit; auto; try discriminate; try (intros _ _; apply Htup; congruence);
+        isplit; auto; try flag_goal; try tclose_goal; try discriminate; try (intros _ _; apply Htup; congruence);
           try (destruct (Z.gtb_spec al 0); [specialize (T7 eq_refl)|]; lia);
           try (apply Hwa; assumption).
         rewrite Haeq, <- HJ, seq_add_add. f_equal; lia.
@@ -1019,10 +1067,10 @@ Proof.
         subst al. rewrite (pos_or_zero _ (proj1 Htx)) in T5. rewrite Ha in T3, T4.
         assert (Hfin : a = seq_add (own_fin_seq g) 1).
         { rewrite Haeq, <- HJ, seq_add_add. f_equal; lia. }
-        split; [right; do 8 right; left; unfold acks_own_fin; isplit; auto; congruence|].
+        split; [right; do 8 right; left; unfold acks_own_fin; isplit; auto; try flag_goal; try tclose_goal; congruence|].
         split; [|split; intros E; discriminate E].
         unfold inv, J, tx_len. rewrite T1, D3, T3, T5, T6, T2, E5.
-        isplit; auto; try lia; try discriminate; try (intros _ _; apply Htup; congruence);
+        isplit; auto; try flag_goal; try tclose_goal; try lia; try discriminate; try (intros _ _; apply Htup; congruence);
           try (apply Hwa; assumption).
       * (* FIN-WAIT-1 -> CLOSING *)
         destruct (ack_pre_generic s r Hpre Hrc) as (a & Ha & Hlo & Hhi); try (rewrite D1; discriminate).
@@ -1030,10 +1078,10 @@ Proof.
         unfold tcp_sent_syn in Haeq. rewrite D1 in Haeq.
         specialize (Hnn eq_refl). rewrite (pos_or_zero al Hnn) in T5. rewrite Ha in T3, T4.
         subst c. simpl in Hq. destruct Hq as (Q1 & Q2 & Q3).
-        split; [right; do 9 right; left; unfold fin_in_order, rcv_nxt, rcv_wnd_end; isplit; auto; apply Hacc; congruence|].
+        split; [right; do 9 right; left; unfold fin_in_order, rcv_nxt, rcv_wnd_end; isplit; auto; try flag_goal; try tclose_goal; apply Hacc; congruence|].
         split; [|split; intros E; discriminate E].
         unfold inv, J, tx_len. rewrite T1, D3, T3, T5, T6, T2, E5.
-        isplit; auto; try discriminate; try (intros _ _; apply Htup; congruence);
+        isplit; auto; try flag_goal; try tclose_goal; try discriminate; try (intros _ _; apply Htup; congruence);
           try (destruct (Z.gtb_spec al 0); [specialize (T7 eq_refl)|]; lia);
           try (apply Hwa; assumption).
         destruct (s_syn_unacked_in_fin_wait s) eqn:Efl; simpl in Haeq.
@@ -1052,10 +1100,10 @@ Proof.
         assert (Htm : s_timer s8 = TClose (cx_now cx + tcp_CLOSE_DELAY)) by (apply T8; [assumption|lia]).
         subst c. simpl in Hq. destruct Hq as (Q1 & Q2 & Q3).
         split; [right; do 10 right; left; unfold acks_own_fin, fin_in_order, rcv_nxt, rcv_wnd_end;
-                isplit; auto; try congruence; apply Hacc; congruence|].
+                isplit; auto; try flag_goal; try tclose_goal; try congruence; apply Hacc; congruence|].
         split; [|split; intros E E'; [exact Htm | discriminate E']].
         unfold inv, J, tx_len. rewrite T1, D3, T3, T5, T6, T2, E5.
-        isplit; auto; try lia; try discriminate; try (intros _ _; apply Htup; congruence); eauto;
+        isplit; auto; try flag_goal; try tclose_goal; try lia; try discriminate; try (intros _ _; apply Htup; congruence); eauto;
           try (apply Hwa; assumption).
       * (* FIN-WAIT-2 -> TIME-WAIT *)
         destruct (ack_pre_generic s r Hpre Hrc) as (a & Ha & Hlo & Hhi); try (rewrite D1; discriminate).
@@ -1069,10 +1117,10 @@ Proof.
         assert (Htm : s_timer s8 = TClose (cx_now cx + tcp_CLOSE_DELAY)) by (apply T8; [assumption|lia]).
         subst c. simpl in Hq. destruct Hq as (Q1 & Q2 & Q3).
         split; [right; do 11 right; left; unfold fin_in_order, rcv_nxt, rcv_wnd_end;
-                isplit; auto; apply Hacc; congruence|].
+                isplit; auto; try flag_goal; try tclose_goal; apply Hacc; congruence|].
         split; [|split; intros E E'; [exact Htm | congruence]].
         unfold inv, J, tx_len. rewrite T1, D3, T3, T5, T6, T2, E5.
-        isplit; auto; try lia; try discriminate; try (intros _ _; apply Htup; congruence); eauto; try congruence.
+        isplit; auto; try flag_goal; try tclose_goal; try lia; try discriminate; try (intros _ _; apply Htup; congruence); eauto; try congruence.
       * (* CLOSING -> TIME-WAIT *)
         destruct (ack_pre_generic s r Hpre Hrc) as (a & Ha & Hlo & Hhi); try (rewrite D1; discriminate).
         destruct (Hal a Ha) as (Haeq & Haof & Hnn). subst aof.
@@ -1082,10 +1130,10 @@ Proof.
         assert (Hfin : a = seq_add (own_fin_seq g) 1).
         { rewrite Haeq, <- HJ, seq_add_add. f_equal; lia. }
         assert (Htm : s_timer s8 = TClose (cx_now cx + tcp_CLOSE_DELAY)) by (apply T8; [assumption|lia]).
-        split; [right; do 12 right; left; unfold acks_own_fin; isplit; auto; congruence|].
+        split; [right; do 12 right; left; unfold acks_own_fin; isplit; auto; try flag_goal; try tclose_goal; congruence|].
         split; [|split; intros E E'; [exact Htm | discriminate E']].
         unfold inv, J, tx_len. rewrite T1, D3, T3, T5, T6, T2, E5.
-        isplit; auto; try lia; try discriminate; try (intros _ _; apply Htup; congruence); eauto;
+        isplit; auto; try flag_goal; try tclose_goal; try lia; try discriminate; try (intros _ _; apply Htup; congruence); eauto;
           try (apply Hwa; assumption).
   - (* LAST-ACK -> CLOSED *)
     destruct Hlast as (D1 & D2 & D2' & D3 & D4 & D5).
@@ -1099,10 +1147,10 @@ Proof.
     subst al. rewrite (pos_or_zero _ (proj1 Htx)) in T5. rewrite Ha in T3, T4.
     assert (Hfin : a = seq_add (own_fin_seq g) 1).
     { rewrite Haeq, <- HJ, seq_add_add. f_equal; lia. }
-    split; [right; do 13 right; left; unfold acks_own_fin; isplit; auto; congruence|].
+    split; [right; do 13 right; left; unfold acks_own_fin; isplit; auto; try flag_goal; try tclose_goal; congruence|].
     split; [|split; intros E; discriminate E].
     unfold inv, J, tx_len. rewrite T1, D3, T3, T5, T6.
-    isplit; auto; try lia; try discriminate; try congruence; try (apply Hwa; assumption).
+    isplit; auto; try flag_goal; try tclose_goal; try lia; try discriminate; try congruence; try (apply Hwa; assumption).
 Qed.
 
 Lemma tail_compose : forall cx s3 s4 s5 s6 s7 s8 ip r al iwu aall t5 t6 t7 t8 payload off rep,
@@ -1123,8 +1171,8 @@ Proof.
   { unfold s5'. destruct (r_timestamp r) as [[tv te]|]; [|split; [apply only_timer_refl|reflexivity]].
     split; [unfold only_timer, same_conn; simpl; auto 12 | reflexivity]. }
   destruct C as [C1 C2].
-  apply timers_spec in E7. destruct E7 as [D1 D2].
-  apply zwp_spec in E8. destruct E8 as [F1 F2].
+  apply timers_spec in E7. destruct E7 as (D1 & D2 & D3).
+  apply zwp_spec in E8. destruct E8 as (F1 & F2 & F3).
   apply payload_spec in E9. destruct E9 as [G1 G2].
   pose proof (only_timer_trans _ _ _ G1 (only_timer_trans _ _ _ F1 (only_timer_trans _ _ _ D1 C1))) as K.
   destruct K as ((K1 & K2 & K3 & K4 & K5 & K6 & K7 & K8) & _ & _).
@@ -1132,14 +1180,16 @@ Proof.
   destruct D1 as ((_ & _ & D1b & _) & _ & _). destruct C1 as ((_ & _ & C1b & _) & _ & _).
   unfold tail_ok, tx_len. rewrite K1, K2, K3, K4, K5, B1, B2, B5, B6, B7, A1, A3, A4, A7, A8, A9.
   isplit; auto.
-  intros e He Hz.
-  assert (Ht5 : s_timer s5 = TClose e).
-  { destruct B8 as [B8|[_ B8]]; [congruence|].
-    exfalso. unfold rb_is_empty in B8. rewrite A8 in B8.
-    destruct (Z.eqb_spec (rb_len (s_tx_buffer s3) - (if al >? 0 then al else 0)) 0); congruence. }
-  rewrite G2. apply F2.
-  - apply D2. congruence.
-  - rewrite D1b, C1b, B5, A8. exact Hz.
+  - intros e He Hz.
+    assert (Ht5 : s_timer s5 = TClose e).
+    { destruct B8 as [B8|[_ B8]]; [congruence|].
+      exfalso. unfold rb_is_empty in B8. rewrite A8 in B8.
+      destruct (Z.eqb_spec (rb_len (s_tx_buffer s3) - (if al >? 0 then al else 0)) 0); congruence. }
+    rewrite G2. apply F2.
+    + apply D2. congruence.
+    + rewrite D1b, C1b, B5, A8. exact Hz.
+  - intros e He. rewrite G2 in He. apply F3 in He. apply D3 in He. rewrite C2 in He.
+    destruct B8 as [B8|[B8 _]]; [congruence | rewrite B8 in He; discriminate He].
 Qed.
 
 (* the trimmed segment is processed against [s] with only local_rx_last_seq touched *)
